@@ -305,3 +305,115 @@ mod probes_len0 {
         detect(fr.read().next_block_calls + 5);
     }
 }
+
+// ---------------------------------------------------------------------------------------------
+// The real checksum (no S-crc stub): frame::header::crc32 == CRC-32/IEEE of [frame_type] ++ payload.
+// crc32fast's CPU-feature dispatch (cpuid, pclmulqdq) is not executable; its portable baseline
+// implementation is selected by stubbing the *dispatcher* only.
+// ---------------------------------------------------------------------------------------------
+#[cfg(quickwit_oss_mrecordlog_verif_block16)]
+pub(crate) mod real_crc {
+    use super::*;
+
+    pub(crate) fn no_specialized(_init: u32, _amount: u64) -> Option<crc32fast::Hasher> {
+        None
+    }
+
+    /// bitwise reference: reflected polynomial 0xEDB88320, init and final xor 0xFFFFFFFF
+    fn ref_crc32(t: u8, data: &[u8]) -> u32 {
+        let mut crc: u32 = !0;
+        let mut i = 0;
+        while i <= data.len() {
+            let byte = if i == 0 { t } else { data[i - 1] };
+            crc ^= byte as u32;
+            let mut k = 0;
+            while k < 8 {
+                crc = if crc & 1 != 0 { (crc >> 1) ^ 0xEDB8_8320 } else { crc >> 1 };
+                k += 1;
+            }
+            i += 1;
+        }
+        !crc
+    }
+
+    fn any_type() -> FrameType {
+        let k: u8 = kani::any();
+        match k & 3 {
+            0 => FrameType::Full,
+            1 => FrameType::First,
+            2 => FrameType::Middle,
+            _ => FrameType::Last,
+        }
+    }
+
+    /// writer side: the checksum stored by write_frame is the reference CRC of type ++ payload
+    fn crc_writer<const N: usize>() {
+        mark_case();
+        mark_nontrivial();
+        let data: [u8; N] = kani::any();
+        let ty = any_type();
+        let mut fw = FrameWriter::create(ArrW::new());
+        fw.write_frame(ty, &data).unwrap();
+        let buf = &fw.get_underlying_wrt().buf;
+        let stored = (buf[0] as u32) | ((buf[1] as u32) << 8) | ((buf[2] as u32) << 16) | ((buf[3] as u32) << 24);
+        assert!(stored == ref_crc32(ty as u8, &data), "C08: stored checksum is not CRC-32(type ++ payload)");
+        assert!(buf[4] as usize == N && buf[5] == 0 && buf[6] == ty as u8, "C07: header fields");
+    }
+
+    /// reader side: read_frame accepts a frame iff its stored checksum is the reference CRC of the
+    /// type and payload bytes now in the block (all of them symbolic)
+    fn crc_reader<const N: usize>() {
+        mark_case();
+        mark_nontrivial();
+        let mut data = [0u8; DEV];
+        let payload: [u8; N] = kani::any();
+        let stored: u32 = kani::any();
+        let ty = any_type();
+        data[0] = stored as u8;
+        data[1] = (stored >> 8) as u8;
+        data[2] = (stored >> 16) as u8;
+        data[3] = (stored >> 24) as u8;
+        data[4] = N as u8;
+        data[5] = 0;
+        data[6] = ty as u8;
+        let mut i = 0;
+        while i < N {
+            data[H + i] = payload[i];
+            i += 1;
+        }
+        let authentic = stored == ref_crc32(ty as u8, &payload);
+        let mut fr = FrameReader::open(ArrR::new(data, 1));
+        let res = fr.read_frame();
+        let ok = match &res {
+            Ok((t, p)) => {
+                assert!(*t as u8 == ty as u8 && same_bytes(p, &payload), "C08: frame content");
+                true
+            }
+            Err(_) => false,
+        };
+        std::mem::forget(res);
+        assert!(ok == authentic, "C08: a frame is accepted iff its checksum is CRC-32(type ++ payload)");
+    }
+
+    macro_rules! cshard {
+        ($name:ident, $unwind:expr, $f:ident, $n:expr) => {
+            #[kani::proof]
+            #[kani::unwind($unwind)]
+            #[kani::stub(crc32fast::Hasher::internal_new_specialized, no_specialized)]
+            fn $name() {
+                $f::<{ $n }>()
+            }
+        };
+    }
+    cshard!(c08_crc_writer_q_n0, 20, crc_writer, 0);
+    cshard!(c08_crc_writer_q_n1, 20, crc_writer, 1);
+    cshard!(c08_crc_writer_q_n3, 20, crc_writer, 3);
+    cshard!(c08_crc_reader_q_n0, 20, crc_reader, 0);
+    cshard!(c08_crc_reader_q_n2, 20, crc_reader, 2);
+    #[cfg(verif_thorough)]
+    cshard!(c08_crc_writer_t_n5, 20, crc_writer, 5);
+    #[cfg(verif_thorough)]
+    cshard!(c08_crc_writer_t_n9, 20, crc_writer, 9);
+    #[cfg(verif_thorough)]
+    cshard!(c08_crc_reader_t_n4, 20, crc_reader, 4);
+}
